@@ -138,7 +138,7 @@ def kernel_rules(P, R):
         # isfinite guard of the segment accumulation (helpers of the measures module are followed)
         fam = [g for g in P.reachable([ll], follow_nested=False) if g.mod.name == MEAS]
         acc = [(g, s) for g in fam for s in ast.walk(g.node) if isinstance(s, ast.AugAssign) and isinstance(s.op, ast.Add) and any(t in norm(s.value) for t in ('sqrt', 'hypot'))]
-        R.floor('C14.a', f'segment accumulation in {ll.name}', len(acc), 1)
+        R.floor('C14.a', f'segment accumulation in {ll.name}', len(acc), 1, defer=True)
         for g, s in acc:
             used = astq.names_in(s.value) - {'sqrt', 'np', 'math', 'hypot'}
             q = s
